@@ -222,6 +222,28 @@ func zzH_C12_paneWidth() {
 	verifReach("rendered")
 }
 
+// the size the other side announces (SIZE line, any 64-bit value) with a progress display attached: either the
+// transfer ends with an error or the display is left in a possible state (a size of zero or more, position within it)
+func zzH_C12_sizeField() {
+	t := zzTransfer12()
+	size := verifNondetInt()
+	t.buffer.addBuffer([]byte("#SIZE:" + strconv.FormatInt(int64(size), 10) + "\n"))
+	p := newTextProgressBar(&zzSink12{}, 80, 0, "", "")
+	p.onNum(1)
+	p.onName("f")
+	got, err := t.recvFileSize(p)
+	if err != nil {
+		verifReach("error")
+		return
+	}
+	verifAssert(got == int64(size), "size misparsed")
+	p.onStep(0)
+	p.onDone()
+	verifAssert(p.fileSize >= 0, "progress display holds a negative file size announced by the other side")
+	verifAssert(p.fileStep >= 0 && p.fileStep <= p.fileSize, "progress display holds a position outside the file")
+	verifReach("size")
+}
+
 // escaped data with arbitrary bytes against the escape-all table
 func zzH_C12_unescape() {
 	t := zzMkTable12()
